@@ -143,12 +143,13 @@ MapFor(lines, kind, name) ==
 \* what decides the location of a query:
 \*   [locs: acceptable location ids (0 = no location), scope: acceptable scope values, -1 = no ECS in the query]
 \* ECS first; when it yields no location the resolver's address decides.
+\* a name without a resolver map uses the default map 0: the subnets declared without a map id (classic tinydns)
 ResolverLocs(lines, q) ==
-  LET m == MapFor(lines, "M", q.name) IN
-  IF m = {} THEN {0}
-  ELSE UNION { LET nets == {n \in Nets(lines) : n.map = mm}
-                   ls == LpmLocs(nets, q.rip)
-               IN IF ls = {} THEN {0} ELSE ls : mm \in m }
+  LET m0 == MapFor(lines, "M", q.name)
+      m == IF m0 = {} THEN {0} ELSE m0
+  IN UNION { LET nets == {n \in Nets(lines) : n.map = mm}
+                 ls == LpmLocs(nets, q.rip)
+             IN IF ls = {} THEN {0} ELSE ls : mm \in m }
 
 ClientLoc(lines, q) ==
   IF ~q.ecs.present THEN [locs |-> ResolverLocs(lines, q), scope |-> {-1}]
